@@ -303,7 +303,7 @@ def rel_live(prog: Program) -> RuleResult:
     sg = prog.cls(SG)
     n = 0
     for name, f in sorted(sg.methods.items()):
-        reads = [c for c in calls_in(f.node) if call_name(c) in ("in_edges", "out_edges") and "_instance_graph" in src(c.func)]
+        reads = [c for c in calls_in(f.node) if call_name(c) in ("in_edges", "out_edges") + _PER_NEIGHBOUR and "_instance_graph" in src(c.func)]
         if not reads or name in ("remove_node",):
             continue
         n += 1
@@ -327,6 +327,66 @@ def rel_live(prog: Program) -> RuleResult:
                 "instance (d.part_of = [a]; del d; a.part_of = [y] raises AttributeError on None), so the new relation's consequences are lost")
     if n < 2:
         raise AnalysisError(f"REL-LIVE: only {n} edge readers found in SymbolGraph")
+    return r
+
+
+# rustworkx: which readers of a PyDiGraph answer per edge (parallel edges between two nodes each appear) and which per neighbouring node
+# (parallel edges collapse into one entry - `adj` keeps one payload per neighbour, `successors` lists nodes)
+_PER_EDGE = ("in_edges", "out_edges", "edges", "edge_list", "weighted_edge_list", "edge_index_map", "incident_edges", "incident_edge_index_map", "edge_indices")
+_PER_NEIGHBOUR = ("adj", "adj_direction", "successors", "predecessors", "neighbors", "successor_indices", "predecessor_indices", "get_edge_data", "has_edge",
+                  "find_successors_by_edge", "find_predecessors_by_edge", "find_adjacent_node_by_edge")
+
+
+def rel_edges(prog: Program) -> RuleResult:
+    """Two instances can be related by several relations at once (works_for and its super-property member_of; a transitive property and a plain
+    one): every relation is an edge of its own in the instance graph. That needs a multigraph - in a simple graph add_edge(a, b, data)
+    overwrites the payload of the a->b edge there is - and readers that answer per edge: a per-neighbour reader hands out one relation
+    per pair of instances and hides the others from the inference procedure and from the sweep."""
+    from ..astutil import calls_in, call_name, kwarg
+
+    r = RuleResult("REL-EDGES", "every relation between two instances is an edge of its own, and the relation getters see all of them", floor=3)
+    sg = prog.cls(SG)
+    # (a) the graph is created as a multigraph
+    creations = []
+    fi = sg.attrs.get("_instance_graph")
+    if fi is not None and fi.field_call is not None:
+        fac = fi.field_kw("default_factory")
+        if fac is not None:
+            creations.append((fac.body if isinstance(fac, ast.Lambda) else fac, sg.loc))
+    for f in sg.methods.values():
+        for x in walk_local(f.node):
+            if isinstance(x, ast.Assign) and any(is_self_attr(t, "_instance_graph") for t in x.targets):
+                creations.append((x.value, site(f, x)))
+    if not creations:
+        raise AnalysisError("REL-EDGES: no creation of SymbolGraph._instance_graph found")
+    for i, (e, where) in enumerate(creations):
+        simple = None
+        for c in [e] + list(ast.walk(e)):
+            if isinstance(c, ast.Call) and call_name(c) in ("PyDiGraph", "PyGraph", "PyDAG"):
+                mg = kwarg(c, "multigraph")
+                if mg is not None and not (isinstance(mg, ast.Constant) and mg.value is True):
+                    simple = c
+        r.check(simple is None, f"SymbolGraph._instance_graph#multigraph:{i}", where, src(e)[:80], "created as a multigraph (rustworkx default)",
+                f"{src(simple)[:60] if simple is not None else ''} creates a simple graph: the second relation between the same two instances (works_for and the inferred member_of) "
+                "overwrites the payload of the first edge - that relation is gone from the graph while its pair stays in the relation index, where the sweep never finds it again")
+    # (b) the relation getters read per edge
+    n = 0
+    for name, f in sorted(sg.methods.items()):
+        if "relation" not in name:
+            continue
+        reads = [c for c in calls_in(f.node) if isinstance(c.func, ast.Attribute) and is_self_attr(c.func.value, "_instance_graph")]
+        if not reads:
+            continue
+        n += 1
+        collapsing = [c for c in reads if call_name(c) in _PER_NEIGHBOUR]
+        unknown = [c for c in reads if call_name(c) not in _PER_NEIGHBOUR + _PER_EDGE + ("add_edge", "remove_edge", "remove_edge_from_index", "add_node", "remove_node", "num_edges", "num_nodes", "nodes", "node_indices", "get_node_data")]
+        if unknown:
+            raise AnalysisError(f"REL-EDGES: {f.short} reads the graph through {call_name(unknown[0])}(), which is not in the table of per-edge / per-neighbour readers")
+        r.check(not collapsing, f"SymbolGraph.{name}#per-edge", site(f, (collapsing or reads)[0]), src((collapsing or reads)[0])[:80], "reads the edges one by one",
+                f"{f.short} reads the relations through {call_name(collapsing[0]) if collapsing else ''}(), which answers per neighbouring node: of several relations between the same two "
+                "instances only one is handed out - a transitive fact b->c recorded next to another relation b->c is hidden, and a->c is never derived")
+    if n < 2:
+        raise AnalysisError(f"REL-EDGES: only {n} relation getters reading the instance graph found in SymbolGraph")
     return r
 
 
@@ -375,4 +435,4 @@ def _opt_truth(prog):
 
 
 def run(prog: Program, tier: str) -> List[RuleResult]:
-    return [sg_coherence(prog), idkey(prog), rel_gate(prog), sg_purge_directions(prog), rel_live(prog), _sg_sweep(prog), _opt_truth(prog)]
+    return [sg_coherence(prog), idkey(prog), rel_gate(prog), sg_purge_directions(prog), rel_live(prog), _sg_sweep(prog), _opt_truth(prog), rel_edges(prog)]
